@@ -65,6 +65,12 @@ def all_specs(thorough):
             for root in ("imm-local", "mut-local", "param"):
                 for op in ("assign", "refmut"):
                     specs.append({"k": "container", "cont": cont, "ptr": pmut, "root": root, "op": op, "mutable": root == "mut-local"})
+    # pointers to pointers: the pointer dereferenced *last* decides
+    for outer in (True, False):
+        for inner in (True, False):
+            for form in ("explicit", "auto"):
+                for op in ("assign", "compound"):
+                    specs.append({"k": "ptrptr", "outer": outer, "inner": inner, "form": form, "op": op, "mutable": inner and outer, "root": "ptrptr", "ptr": inner})
     # the global and a parameter of scalar type
     for op in OPS:
         specs.append({"k": "global", "op": op, "mutable": False, "root": "global", "ptr": None})
@@ -97,9 +103,26 @@ def make_container_cell(i, spec):
             "desc": f"{op} of the pointer-typed {'element' if cont == 'array' else 'field'} of a {root} {cty}", "spec": spec, "cls": f"{'mutable' if mutable else 'immutable'}.container.{op}"}
 
 
+def make_ptrptr_cell(i, spec):
+    om = "^mut" if spec["outer"] else "^"
+    im = "^mut" if spec["inner"] else "^"
+    body = [f"y{i} := mk();", f"p{i} : {im} S = {im} y{i};", f"pp{i} : {om} {im} S = {om} p{i};"]
+    target = f"pp{i}^^.a" if spec["form"] == "explicit" else f"pp{i}^.a"
+    body.append(f"{target} = 9;" if spec["op"] == "assign" else f"{target} += 8;")
+    body.append(f'printf("%ld\\n", i64.(y{i}.a));')
+    # reached through an immutable pointer => rejected; only ^mut pointers on the way => accepted; an immutable outer pointer
+    # holding a ^mut inner pointer falls under both sentences of the statement: either
+    expect = "accept" if spec["mutable"] else ("reject" if not spec["inner"] else "either")
+    return {"decls": [], "body": body, "expect": expect, "out": "9\n" if expect != "reject" else None,
+            "key": f"C14:{spec['op']}:ptrptr:{'outer-mut' if spec['outer'] else 'outer-imm'}:{'inner-mut' if spec['inner'] else 'inner-imm'}:{spec['form']}",
+            "desc": f"{spec['op']} through `{target}` with pp : {om} {im} S", "spec": spec, "cls": f"{'mutable' if spec['mutable'] else 'immutable'}.ptrptr"}
+
+
 def make_cell(i, spec):
     if spec["k"] == "container":
         return make_container_cell(i, spec)
+    if spec["k"] == "ptrptr":
+        return make_ptrptr_cell(i, spec)
     decls, body = [], []
     op = spec["op"]
     if spec["k"] == "global":
